@@ -171,6 +171,9 @@ func main() {
 				continue
 			}
 			acc := accessesOf(f, fd, false)
+			if len(acc) == 0 { // nothing that can panic: adding or removing such a method does not concern the table
+				continue
+			}
 			if !first {
 				fmt.Printf(",\n")
 			}
